@@ -16,7 +16,7 @@ from ..simdb import SimDB
 
 ID = "C17"
 LEVEL = "fault_enumeration"
-RUNS = {"quick": 1500, "thorough": 30000}
+RUNS = {"quick": 20000, "thorough": 300000}
 RULE = (
     "each run: a SimDB with seeded pre-existing contents wrapped by one ScratchDB; 0-2 earlier batches (committed or "
     "aborted) and one target batch of k = 0..12 seeded operations (read / write / delete / in / copy over buffered, "
